@@ -120,9 +120,22 @@ fn sample_values<S: AnyS>(rng: &mut Rng, n_random: usize) -> Vec<S> {
         }
         None => {
             let mut v: Vec<f64> = vec![0.0, -0.0, 0.5, -0.5, 0.25, 0.999, -1.0, 1.0 / 3.0, 1e-30, -1e-30, 0.75];
+            // subnormals and the smallest normals of the format, both signs (an operation that
+            // flushes, rounds or special-cases tiny magnitudes differs from the native one here)
+            let tiny: Vec<f64> = if S::FLOAT_P == 24 { vmon::edge::tiny_f32().into_iter().map(|x| x as f64).chain([1e-40, 3e-39, 1.1e-38, 1e-44]).collect() } else { vmon::edge::tiny_f64().into_iter().chain([1e-310, 1e-320, 2.3e-308, 5e-324]).collect() };
+            for t in tiny {
+                v.push(t);
+                v.push(-t);
+            }
             for _ in 0..n_random {
                 v.push(rng.f64_in(-1.0, 1.0));
             }
+            // random magnitudes spread over the whole exponent range, subnormals included
+            for _ in 0..n_random / 4 + 8 {
+                let bits = rng.u64();
+                v.push(if S::FLOAT_P == 24 { f32::from_bits((bits as u32) & 0xbfff_ffff) as f64 } else { f64::from_bits(bits & 0xbfff_ffff_ffff_ffff) });
+            }
+            v.retain(|x| x.is_finite() && x.abs() <= 1.0);
             v.into_iter().map(|x| S::from_val(Val::F(if S::FLOAT_P == 24 { (x as f32) as f64 } else { x }))).collect()
         }
     }
@@ -155,6 +168,8 @@ fn gains<T: AnyS>(rng: &mut Rng, n_random: usize) -> Vec<T> {
     for k in 1..12 {
         v.push(spec::pow2(-k));
     }
+    // tiny gains: in-range products that are subnormal (or underflow to zero) in the float format
+    v.extend_from_slice(&[1e-10, -1e-10, 1e-30, 1e-38, 1e-300, if T::FLOAT_P == 24 { f32::MIN_POSITIVE as f64 } else { f64::MIN_POSITIVE }, if T::FLOAT_P == 24 { f32::from_bits(1) as f64 } else { f64::from_bits(1) }]);
     for _ in 0..n_random {
         v.push(rng.f64_in(-1.5, 1.5));
     }
